@@ -190,6 +190,9 @@ func (s *State) heapOrGlobal(a *Addr) *Term {
 	if t, ok := s.heaps[a.global]; ok {
 		return t
 	}
+	if strings.HasSuffix(a.global, ".init$guard") {
+		return tFalse() // only read by package initialisers, which are executed from the un-initialised state
+	}
 	return sym(a.global, sortOf(a.base))
 }
 
